@@ -635,6 +635,174 @@ def is_ancestor_(a, m):
 
 
 # ---------------------------------------------------------------------------------
+# contracts (icontract when installed, plain wrappers otherwise) on the three query methods of
+# the evaluable (C03: returned pairs are exactly the imports between the requested sets) and on
+# convert_partial_match_to_regex (C08).  Conditions record and return True: a contract never
+# raises into the library.
+# ---------------------------------------------------------------------------------
+
+
+def _fsel(f, mods):
+    from .refmodel import rules as rrule
+
+    kind = "sub" if f.identifier_is_parent_module else "named"
+    return rrule.sel((kind, f.identifier), mods), kind, f.identifier
+
+
+def _pairs(lst):
+    return {(a.identifier, b.identifier) for a, b in lst}
+
+
+def _query_post_get_dependencies(self, dependents, dependent_upons, result):
+    st = graph_state(self)
+    if st is None or any(f.identifier_is_regex for f in list(dependents) + list(dependent_upons)):
+        return True
+    mods, imps = truth_from_state(st)
+    HUB.acc.count("contract_get_dependencies")
+    fd = {(("sub" if f.identifier_is_parent_module else "named"), f.identifier): f for f in dependents}
+    fu = {(("sub" if f.identifier_is_parent_module else "named"), f.identifier): f for f in dependent_upons}
+    for (md, mu), lst in result.items():
+        kd = ("named" if md.is_single_module else "sub", md.identifier)
+        ku = ("named" if mu.is_single_module else "sub", mu.identifier)
+        if kd not in fd or ku not in fu or kd[1] not in mods or ku[1] not in mods:
+            continue
+        sd, _, _ = _fsel(fd[kd], mods)
+        su, _, _ = _fsel(fu[ku], mods)
+        # "If one or both of the modules are defined by their parent module, this parent module is
+        # excluded from possible matches" (docstring of get_dependencies): on either side
+        parents = {k[1] for k in (kd, ku) if k[0] == "sub"}
+        exp = {(a, b) for a, b in imps if a in sd and b in su and a not in parents and b not in parents}
+        got = _pairs(lst)
+        if got != exp and "C03" in HUB.judges:
+            HUB.violation("C03", "query:get_dependencies", f"get_dependencies({kd}, {ku}) returned pairs that are not exactly the imports between the two module sets", {"dependent": kd, "dependent_upon": ku, "extra": sorted(got - exp), "missing": sorted(exp - got), "mods": sorted(mods), "imps": sorted(imps)})
+    return True
+
+
+def _query_post_other(direction):
+    def post(self, dependents, dependent_upons, result):
+        st = graph_state(self)
+        if st is None or any(f.identifier_is_regex for f in list(dependents) + list(dependent_upons)):
+            return True
+        mods, imps = truth_from_state(st)
+        from .refmodel.names import pairwise_unrelated
+
+        names = [f.identifier for f in list(dependents) + list(dependent_upons)]
+        if any(n not in mods for n in names):
+            return True
+        HUB.acc.count("contract_other_dependencies")
+        subjects = list(dependents) if direction == "import" else list(dependent_upons)
+        objects = list(dependent_upons) if direction == "import" else list(dependents)
+        # strict only where unambiguous: different filters pairwise unrelated (the alias case
+        # subject == object is handled: an object equal to the subject excludes nothing)
+        distinct = {(f.identifier_is_parent_module, f.identifier) for f in subjects} | {(f.identifier_is_parent_module, f.identifier) for f in objects}
+        ids = sorted(i for _k, i in distinct)
+        if len(set(ids)) != len(ids) or not pairwise_unrelated(ids):
+            return True
+        for key, lst in result.items():
+            cand = [f for f in subjects if f.identifier == key.identifier and f.identifier_is_parent_module != key.is_single_module]
+            if len(cand) != 1:
+                continue
+            s = cand[0]
+            ss, skind, sname = _fsel(s, mods)
+            oset = set()
+            for o in objects:
+                if o == s:
+                    continue
+                oset |= _fsel(o, mods)[0]
+            if direction == "import":
+                req = {(a, b) for a, b in imps if a in ss and b not in ss and b not in oset and b != sname}
+                opt = {(a, b) for a, b in imps if a in ss and b == sname and skind == "sub"}
+            else:
+                req = {(a, b) for a, b in imps if b in ss and a not in ss and a not in oset and a != sname}
+                opt = {(a, b) for a, b in imps if b in ss and a == sname and skind == "sub"}
+            got = _pairs(lst)
+            if not (req <= got <= req | opt) and "C03" in HUB.judges:
+                HUB.violation("C03", f"query:other-dependencies:{direction}", "the 'other dependencies' query returned pairs that are not exactly the imports between the module and something else", {"module": [skind, sname], "objects": [[("sub" if o.identifier_is_parent_module else "named"), o.identifier] for o in objects], "extra": sorted(got - req - opt), "missing": sorted(req - got), "mods": sorted(mods), "imps": sorted(imps)})
+        return True
+
+    return post
+
+
+def _convert_post(match, result):
+    import re as _re
+
+    from .refmodel import glob as rglob
+
+    HUB.acc.count("contract_convert_partial_match")
+    try:
+        rx = _re.compile(result)
+    except _re.error:
+        HUB.violation("C08", "convert-invalid-regex", f"convert_partial_match_to_regex({match!r}) produced an invalid regex", {"pattern": match, "regex": result})
+        return True
+    lead, trail, text = rglob.split(match)
+    probes = {text, "x" + text, text + "x", "x" + text + "x", text[:-1] if text else "y", "/abs/" + text, text + "/sub", text.replace(".", "x") if "." in text else text + "."}
+    for sprobe in probes:
+        if (rx.match(sprobe) is not None) != rglob.matches(match, sprobe) and "C08" in HUB.judges:
+            HUB.violation("C08", f"convert-contract:{'*' if lead else ''}text{'*' if trail else ''}", f"pattern {match!r} vs {sprobe!r}: regex {result!r} disagrees with the documented glob meaning", {"pattern": match, "string": sprobe, "regex": result})
+            break
+    return True
+
+
+def _install_contracts():
+    from pytestarch.eval_structure.evaluable_graph import EvaluableArchitectureGraph
+    import pytestarch.pytestarch as entry
+    import pytestarch.query_language.rule as rule_mod
+    import pytestarch.utils.partial_match_to_regex_converter as conv
+
+    try:
+        import icontract
+
+        HUB.contracts_backend = "icontract " + getattr(icontract, "__version__", "")
+
+        def ensure(cond, fn):
+            return icontract.ensure(cond, error=lambda **kw: AssertionError("pta_verif contract (never raised: conditions return True)"))(fn)
+    except Exception:  # noqa: BLE001
+        HUB.contracts_backend = "plain wrappers (icontract not importable)"
+
+        def ensure(cond, fn):
+            import inspect
+
+            sig = inspect.signature(fn)
+            names = [n for n in inspect.signature(cond).parameters if n != "result"]
+
+            @functools.wraps(fn)
+            def wrapper(*a, **k):
+                r = fn(*a, **k)
+                ba = sig.bind(*a, **k)
+                ba.apply_defaults()
+                cond(**{n: ba.arguments[n] for n in names}, result=r)
+                return r
+
+            return wrapper
+
+    def guarded(cond):
+        def g(*a, **k):
+            if not HUB.active:
+                return True
+            try:
+                return cond(*a, **k)
+            except Exception as e:  # noqa: BLE001
+                HUB.acc.mark_inconclusive(f"contract condition crashed: {type(e).__name__}: {e}")
+                return True
+
+        g.__signature__ = __import__("inspect").signature(cond)
+        g.__name__ = cond.__name__
+        return g
+
+    E = EvaluableArchitectureGraph
+    gd = guarded(_query_post_get_dependencies)
+    E.get_dependencies = ensure(gd, E.__dict__["get_dependencies"])
+    p1 = guarded(_query_post_other("import"))
+    E.any_dependencies_from_dependents_to_modules_other_than_dependent_upons = ensure(p1, E.__dict__["any_dependencies_from_dependents_to_modules_other_than_dependent_upons"])
+    p2 = guarded(_query_post_other("be"))
+    E.any_other_dependencies_on_dependent_upons_than_from_dependents = ensure(p2, E.__dict__["any_other_dependencies_on_dependent_upons_than_from_dependents"])
+    wrapped = ensure(guarded(_convert_post), conv.convert_partial_match_to_regex)
+    conv.convert_partial_match_to_regex = wrapped
+    entry.convert_partial_match_to_regex = wrapped
+    rule_mod.convert_partial_match_to_regex = wrapped
+
+
+# ---------------------------------------------------------------------------------
 # install
 # ---------------------------------------------------------------------------------
 
@@ -651,3 +819,7 @@ def install(hub) -> None:
     _wrap_puml_parse()
     _wrap_diagram_rule()
     _wrap_draw()
+    try:
+        _install_contracts()
+    except Exception as e:  # noqa: BLE001
+        hub.contracts_backend = f"not installed: {type(e).__name__}: {e}"
